@@ -741,7 +741,6 @@ def check_c11(pid, tier, seed, rep):
 
 KNOWN_VET = [
     ("KF-C04-7", r"declared and not used: ctx\b"),
-    ("KF-C04-2", r"cannot use nil as \S+ value in return statement"),
 ]
 
 
